@@ -91,6 +91,16 @@ CHECKS = {
         "Invalid UTF-8 under NOCASE (strings.Map substitutes U+FFFD) is outside the property's 'UTF-8 text'.",
    technique="Coq proof (total preorder via denotation; lexicographic lifting) + exhaustive grid differential vs SQLite ranks",
    design="DESIGN.md section 6, C11"),
+ "C15": dict(
+   text="Coq: parseHeader accepts exactly the headers of plain UTF-8, rollback-journal, no-reserved-space databases of a legal page size in schema format 2..4 and returns the declared page "
+        "size (1 meaning 65536) (C15_accept, C15_only_accept); each must-reject class of the property is decided by one field whatever all other bytes hold (C15_reject_wal, _read_version, "
+        "_utf16, _reserved, _schema_format, _magic, _pagesize); the fields that do not affect reading may hold any value (C15_dont_care, over bytes 24..43, 48..55, 60..71, 92..99). "
+        "Every run: every header byte x every value on SQLite-written headers, all 65536 page-size field values, real files of every legal page size end to end, real WAL (unmerged "
+        "content) / UTF-16 files, and the header rewritten under an open handle between transactions (every call of the transaction must fail).",
+   note="Schema format 1 and 0, fractions other than 64/32/32, non-zero expansion bytes and text encodings other than 1..3 are left open by the property: sqlittle refuses them, the check does not judge them. "
+        "Re-validation at every transaction is checked on the code (harness sequences); its model (resolveDirty) is part of C08's state machine.",
+   technique="Coq proof (characterisation of the accepted headers) + exhaustive single-byte sweep differential",
+   design="DESIGN.md section 6, C15"),
 }
 
 NOT_YET = {}
